@@ -208,7 +208,20 @@ pub fn check_container(obs: &mut Obs, spec: &ContainerSpec, case_index: u64) {
         Ok(Ok(h)) => {
             // the same 24 bytes read in pieces (a reader that returns short reads) give the same header
             let mut rd = mon::DribbleReader::new(std::io::Cursor::new(&bytes[..]), bytes.len() as u64 ^ 0x5eed);
-            match mon::catch(|| nexrad_data::volume::Header::deserialize(&mut rd)) {
+            let r = mon::catch(|| nexrad_data::volume::Header::deserialize(&mut rd));
+            // the header is the first 24 bytes and nothing more: what follows it is still the caller's
+            // to read (the records, or the next header of a concatenation)
+            if r.as_ref().map(|x| x.is_ok()).unwrap_or(false) {
+                use std::io::Seek;
+                match rd.stream_position() {
+                    Ok(24) => obs.count("header_reads_that_left_the_reader_at_byte_24", 1),
+                    other => {
+                        obs.violation("Header::deserialize consumes more than the 24 header bytes of the caller's reader", format!("reader left at {:?}", other), replay.clone());
+                        return;
+                    }
+                }
+            }
+            match r {
                 Ok(Ok(h2)) if h2 == h => obs.count("headers_identical_through_short_reads", 1),
                 Ok(other) => {
                     obs.violation("volume header depends on how the reader chunks the bytes (short reads)", format!("{:?}", other.map(|x| format!("{:?}", x)).map_err(|e| format!("{e:?}"))), replay.clone());
